@@ -86,13 +86,16 @@ def programs():
              '    shear_modulus12 : 68e9, shear_modulus23 : 72e9, shear_modulus13 : 52e9},\n'
              '  inelastic_flow : "Norton" {criterion : "Hill" {F : 0.371, G : 0.629, H : 4.052, L : 1.3, M : 1.7, N : 2.1},\n'
              '    K : 120e6, n : 3.1}\n};\n')
-    # PlaneStress + <Plate> + orthotropic Hooke does not compile (incomplete type ComputeOrthotropicStiffnessTensor<PLANESTRESS,
-    # UNALTERED, PLATE>, StiffnessTensor.ixx:656): left out, reported as a side observation
-    hplate = [HPE, HGPE, H3D]
+    # <Plate> + orthotropic Hooke does not compile in the 2D hypotheses (incomplete type ComputeOrthotropicStiffnessTensor<
+    # PLANESTRAIN, UNALTERED, PLATE>, StiffnessTensor.ixx:656: only PIPE specialisations exist): the Plate program uses an
+    # isotropic elasticity, its orthotropy comes from the Hill criterion only (side observation in the report)
+    hplate = [HPE, HGPE, HPS, H3D]
+    ortho_plate = ortho.replace(ortho[ortho.index('"Hooke" {'):ortho.index("inelastic_flow")],
+                                '"Hooke" {young_modulus : 150e9, poisson_ratio : 0.3},\n  ')
     P["C44OrthoPipe"] = dict(iso=False, visc=True, conv="Pipe", hyps=ALLH,
                              src=head("C44OrthoPipe", "Implicit", ALLH) + imp + "@OrthotropicBehaviour<Pipe>;\n" + ortho)
     P["C44OrthoPlate"] = dict(iso=False, visc=True, conv="Plate", hyps=hplate,
-                              src=head("C44OrthoPlate", "Implicit", hplate) + imp + "@OrthotropicBehaviour<Plate>;\n" + ortho)
+                              src=head("C44OrthoPlate", "Implicit", hplate) + imp + "@OrthotropicBehaviour<Plate>;\n" + ortho_plate)
     # without an axes convention an orthotropic stiffness is only accepted in 3D
     P["C44OrthoDefault"] = dict(iso=False, visc=True, conv="Default", hyps=[H3D],
                                 src=head("C44OrthoDefault", "Implicit", [H3D]) + imp + "@OrthotropicBehaviour;\n" + ortho)
@@ -164,10 +167,43 @@ CHAINS = [[H1D, HAXI, H3D], [HAXI, H3D], [HPE, HGPE, H3D], [HGPE, H3D]]
 _libs = {}
 
 
+def build_mutated(prog, mut):
+    """sensitivity runs only (mutants/C44.md): emulate a mutant of mfront/src/*.cxx by rewriting the code it emits.
+    VERIF_C44_MUTATE_EMITTED = 'regex=>replacement' applied to every generated .hxx/.cxx file"""
+    import glob
+    import hashlib
+    import re
+    from verifpy import WORK, mfront_generate, compile_generated
+    pat, rep = mut.split("=>", 1)
+    wd = os.path.join(WORK, "prog_mut", prog["name"] + "_" + hashlib.sha1(mut.encode()).hexdigest()[:8])
+    os.makedirs(wd, exist_ok=True)
+    src = os.path.join(wd, prog["name"] + ".mfront")
+    open(src, "w").write(prog["src"])
+    rc, so, se = mfront_generate(src, wd)
+    if rc != 0:
+        return None, "mfront failed: " + (so + se)[-1500:]
+    n = 0
+    for f in glob.glob(os.path.join(wd, "include", "TFEL", "Material", "*.hxx")) + glob.glob(os.path.join(wd, "src", "*.cxx")):
+        txt = open(f).read()
+        new, k = re.subn(pat, rep, txt)
+        n += k
+        if k:
+            open(f, "w").write(new)
+    print("mutation %r: %d substitutions in %s" % (mut, n, prog["name"]), flush=True)
+    path, err = compile_generated(wd, prog["name"] + "_mut")
+    if path is None:
+        return None, "g++ failed: " + err
+    return G.Library(path, prog["name"], prog["hyps"]), ""
+
+
 def get_lib(name):
     if name not in _libs:
         p = PROGS[name]
-        lib, err = G.build({"name": name, "src": p["src"], "hyps": p["hyps"]})
+        mut = os.environ.get("VERIF_C44_MUTATE_EMITTED", "")
+        if mut:
+            lib, err = build_mutated(p, mut)
+        else:
+            lib, err = G.build({"name": name, "src": p["src"], "hyps": p["hyps"]})
         if lib is None:
             raise RuntimeError("cannot build %s: %s" % (name, err))
         _libs[name] = lib
@@ -340,6 +376,8 @@ def check_pstress(case):
         raise Reject()
     conv = PROGS[case["prog"]].get("conv")
     steps = mk_steps(case, 4)
+    for e, dt in steps:
+        e[2] = 0.0  # the zz slot of the gradient is not an input in plane stress (solvers pass 0)
     rs = integrate(lib, HPS, steps)
     nconv = sum(1 for r in rs if r["r"] >= 0)
     if nconv == 0:
@@ -354,7 +392,9 @@ def check_pstress(case):
     steps3 = []
     for (e, dt), r in zip(steps[:nconv], rs[:nconv]):
         S, Se = scales([r], steps)
-        c.close("C44.pstress.sigma_zz", [r["sig"][2]], [0.0], S, 1e-9)
+        # sigma_zz/young is one residual of the Newton system (criterion @Epsilon = 1e-14 on the mean residual of <= 20
+        # unknowns): |sigma_zz| <= 20 * 1e-14 * E ~ 0.03 Pa at convergence; 100 x that + 1e-9 of the stress scale
+        c.close("C44.pstress.sigma_zz", [r["sig"][2]], [0.0], S + 3.0e9, 1e-9)
         E = np.zeros(6)
         E[idx] = e
         E[zz] = r["iv"][oa]
@@ -426,6 +466,10 @@ def rot_functions(lib, name, h):
     return fs
 
 
+def _sc(a):
+    return max(float(np.max(np.abs(a))), 1e-300)
+
+
 def ref_rot_vec(v, Mfull, n):
     V = np.zeros(6)
     V[:n] = v
@@ -449,30 +493,33 @@ def check_rot_fn(case):
     g = rng[:npts * n].reshape(npts, n).copy()
     tf = rng[40:40 + npts * n].reshape(npts, n).copy() * 1e8
     Kb = rng[80:80 + npts * n * n].reshape(npts, n, n).copy() * 1e11
+    for a in (g, tf, Kb):
+        if not np.any(a):
+            raise Reject()  # all-zero input: nothing to scale the error with
     # single point
     for i in range(npts):
         d = np.full(n, 7.0)
         fs["rotateGradients"](G.dptr(d), G.dptr(g[i]), G.dptr(rv))
-        c.close("C44.rotfn.gradients", d, (M @ np.pad(g[i], (0, 6 - n)))[:n], max(1e-300, float(np.max(np.abs(g[i])))), TOL_ROT)
+        c.close("C44.rotfn.gradients", d, (M @ np.pad(g[i], (0, 6 - n)))[:n], _sc(g[i]), TOL_ROT)
         d = np.full(n, 7.0)
         fs["rotateThermodynamicForces"](G.dptr(d), G.dptr(tf[i]), G.dptr(rv))
-        c.close("C44.rotfn.forces", d, (M.T @ np.pad(tf[i], (0, 6 - n)))[:n], float(np.max(np.abs(tf[i]))), TOL_ROT)
+        c.close("C44.rotfn.forces", d, (M.T @ np.pad(tf[i], (0, 6 - n)))[:n], _sc(tf[i]), TOL_ROT)
         d = np.full(n * n, 7.0)
         src = np.ascontiguousarray(Kb[i].reshape(-1))
         fs["rotateTangentOperatorBlocks"](G.dptr(d), G.dptr(src), G.dptr(rv))
         K6 = np.zeros((6, 6))
         K6[:n, :n] = Kb[i]
-        c.close("C44.rotfn.operator", d.reshape(n, n), (M.T @ K6 @ M)[:n, :n], float(np.max(np.abs(Kb[i]))), TOL_ROT)
+        c.close("C44.rotfn.operator", d.reshape(n, n), (M.T @ K6 @ M)[:n, :n], _sc(Kb[i]), TOL_ROT)
         # in place
         d = g[i].copy()
         fs["rotateGradients"](G.dptr(d), G.dptr(d), G.dptr(rv))
-        c.close("C44.rotfn.gradients_inplace", d, (M @ np.pad(g[i], (0, 6 - n)))[:n], float(np.max(np.abs(g[i]))), TOL_ROT)
+        c.close("C44.rotfn.gradients_inplace", d, (M @ np.pad(g[i], (0, 6 - n)))[:n], _sc(g[i]), TOL_ROT)
         d = tf[i].copy()
         fs["rotateThermodynamicForces"](G.dptr(d), G.dptr(d), G.dptr(rv))
-        c.close("C44.rotfn.forces_inplace", d, (M.T @ np.pad(tf[i], (0, 6 - n)))[:n], float(np.max(np.abs(tf[i]))), TOL_ROT)
+        c.close("C44.rotfn.forces_inplace", d, (M.T @ np.pad(tf[i], (0, 6 - n)))[:n], _sc(tf[i]), TOL_ROT)
         d = np.ascontiguousarray(Kb[i].reshape(-1)).copy()
         fs["rotateTangentOperatorBlocks"](G.dptr(d), G.dptr(d), G.dptr(rv))
-        c.close("C44.rotfn.operator_inplace", d.reshape(n, n), (M.T @ K6 @ M)[:n, :n], float(np.max(np.abs(Kb[i]))), TOL_ROT)
+        c.close("C44.rotfn.operator_inplace", d.reshape(n, n), (M.T @ K6 @ M)[:n, :n], _sc(Kb[i]), TOL_ROT)
     # arrays = n x the single version (bitwise)
     for k, arr in (("rotateGradients", g), ("rotateThermodynamicForces", tf), ("rotateTangentOperatorBlocks", Kb)):
         flat = np.ascontiguousarray(arr.reshape(-1))
